@@ -355,6 +355,7 @@ class Inliner:
         for st in out:
             ast.copy_location(st, call)
             for n in ast.walk(st):
+                n._synthetic = True
                 if not hasattr(n, "lineno") or True:
                     n.lineno = getattr(call, "lineno", 1)
                     n.end_lineno = getattr(call, "end_lineno", n.lineno)
@@ -486,6 +487,8 @@ class Inliner:
                         n.col_offset = getattr(node, "col_offset", 0)
                         n.end_col_offset = getattr(node, "end_col_offset", 0)
                     inl.inlined.append(node.attr)
+                    if depth > 1:
+                        e = inl._exprs(ast.Expr(value=e), depth - 1).value
                     return e
                 return node
 
@@ -598,3 +601,234 @@ def flatten(repo: Repo, ci: Optional[ClassInfo], fn: ast.FunctionDef, sf: Option
         return Inliner(repo, ci, sf, depth, also, exclude, exact).flatten(fn)
     except RecursionError:
         return fn
+
+
+# ---------------------------------------------------------------------------------------------- unrolling
+MAX_UNROLL = 16
+
+
+class _AttrConst(ast.NodeTransformer):
+    """getattr(x, "name") -> x.name ; setattr(x, "name", v) as a statement -> x.name = v"""
+
+    def visit_Call(self, node):
+        node = self.generic_visit(node)
+        if isinstance(node.func, ast.Name) and node.func.id == "getattr" and len(node.args) == 2 and not node.keywords \
+                and isinstance(node.args[1], ast.Constant) and isinstance(node.args[1].value, str) and node.args[1].value.isidentifier():
+            return ast.copy_location(ast.Attribute(value=node.args[0], attr=node.args[1].value, ctx=ast.Load()), node)
+        return node
+
+    def visit_Expr(self, node):
+        node = self.generic_visit(node)
+        c = node.value
+        if isinstance(c, ast.Call) and isinstance(c.func, ast.Name) and c.func.id == "setattr" and len(c.args) == 3 and not c.keywords \
+                and isinstance(c.args[1], ast.Constant) and isinstance(c.args[1].value, str) and c.args[1].value.isidentifier():
+            t = ast.Attribute(value=c.args[0], attr=c.args[1].value, ctx=ast.Store())
+            return ast.copy_location(ast.Assign(targets=[t], value=c.args[2]), node)
+        return node
+
+
+def _literal_elements(repo: Optional[Repo], ci: Optional[ClassInfo], e: ast.expr, env: Dict[str, List[ast.expr]]) -> Optional[List[ast.expr]]:
+    """The elements of an iterable that is known when reading the code: a tuple/list display, range(<small constant>),
+    a local bound to such a display, or a class/module constant that folds to a short tuple of strings / numbers."""
+    if isinstance(e, (ast.Tuple, ast.List)) and not any(isinstance(x, ast.Starred) for x in e.elts):
+        return list(e.elts) if len(e.elts) <= MAX_UNROLL else None
+    if isinstance(e, ast.Name) and e.id in env:
+        return list(env[e.id])
+    if isinstance(e, ast.Call) and isinstance(e.func, ast.Name) and e.func.id in ("list", "tuple", "iter") and len(e.args) == 1:
+        return _literal_elements(repo, ci, e.args[0], env)
+    if isinstance(e, ast.Call) and isinstance(e.func, ast.Name) and e.func.id == "enumerate" and 1 <= len(e.args) <= 2 and not e.keywords:
+        inner = _literal_elements(repo, ci, e.args[0], env)
+        start = 0
+        if len(e.args) == 2:
+            if not (isinstance(e.args[1], ast.Constant) and isinstance(e.args[1].value, int)):
+                return None
+            start = e.args[1].value
+        if inner is not None:
+            return [ast.Tuple(elts=[ast.Constant(value=start + i), x], ctx=ast.Load()) for i, x in enumerate(inner)]
+    if isinstance(e, ast.Call) and isinstance(e.func, ast.Name) and e.func.id == "zip" and e.args and not e.keywords:
+        cols = [_literal_elements(repo, ci, a, env) for a in e.args]
+        if all(c is not None for c in cols):
+            n = min(len(c) for c in cols)
+            return [ast.Tuple(elts=[c[i] for c in cols], ctx=ast.Load()) for i in range(n)]
+    if repo is not None:
+        try:
+            v = repo.fold(e, ci=ci)
+        except Exception:
+            v = None
+        if isinstance(v, range):
+            v = tuple(v)
+        if isinstance(v, (tuple, list)) and len(v) <= MAX_UNROLL and all(isinstance(x, (str, int, bytes)) or
+                                                                            (isinstance(x, tuple) and all(isinstance(y, (str, int)) for y in x)) for x in v):
+            out = []
+            for x in v:
+                if isinstance(x, tuple):
+                    out.append(ast.Tuple(elts=[ast.Constant(value=y) for y in x], ctx=ast.Load()))
+                else:
+                    out.append(ast.Constant(value=x))
+            return out
+    return None
+
+
+def _bind_target(target: ast.expr, value: ast.expr) -> Optional[Dict[str, ast.expr]]:
+    if isinstance(target, ast.Name):
+        return {target.id: value}
+    if isinstance(target, (ast.Tuple, ast.List)) and isinstance(value, (ast.Tuple, ast.List)) and len(target.elts) == len(value.elts):
+        out: Dict[str, ast.expr] = {}
+        for t, v in zip(target.elts, value.elts):
+            b = _bind_target(t, v)
+            if b is None:
+                return None
+            out.update(b)
+        return out
+    return None
+
+
+def unroll(fn: ast.FunctionDef, repo: Optional[Repo] = None, ci: Optional[ClassInfo] = None) -> ast.FunctionDef:
+    """Copy of `fn` with loops and comprehensions over iterables known from the source unrolled, constant-name
+    getattr/setattr written as attribute access, and `yield from chain(...)` over known lists split into single
+    `yield from`s.  The iteration space must be visible in the code (≤ 16 elements); everything else is left alone."""
+    new = copy.deepcopy(fn)
+
+    def assigned_names(stmts) -> Set[str]:
+        return {n.id for st in stmts for n in ast.walk(st) if isinstance(n, ast.Name) and isinstance(n.ctx, (ast.Store, ast.Del))}
+
+    def expr_unroll(e: ast.AST, env) -> ast.AST:
+        class X(ast.NodeTransformer):
+            def visit_ListComp(self, node):
+                node = self.generic_visit(node)
+                if len(node.generators) == 1 and not node.generators[0].ifs:
+                    g = node.generators[0]
+                    els = _literal_elements(repo, ci, g.iter, env)
+                    if els is not None:
+                        out = []
+                        for x in els:
+                            b = _bind_target(g.target, x)
+                            if b is None:
+                                return node
+                            out.append(_Rename(dict(b)).visit(copy.deepcopy(node.elt)))
+                        return ast.copy_location(ast.List(elts=out, ctx=ast.Load()), node)
+                return node
+
+            def visit_Call(self, node):
+                node = self.generic_visit(node)
+                # chain.from_iterable(<generator over known elements>) / list(<generator>)
+                f = norm(node.func)
+                if f.split(".")[-1] in ("from_iterable", "list", "tuple", "chain") and node.args:
+                    args = []
+                    for a in node.args:
+                        if isinstance(a, ast.GeneratorExp):
+                            lc = self.visit_ListComp(ast.copy_location(ast.ListComp(elt=a.elt, generators=a.generators), a))
+                            args.append(lc)
+                        else:
+                            args.append(a)
+                    node.args = args
+                return node
+        return _AttrConst().visit(X().visit(e))
+
+    def block(stmts: List[ast.stmt], env: Dict[str, List[ast.expr]]) -> List[ast.stmt]:
+        env = dict(env)
+        out: List[ast.stmt] = []
+        for st in stmts:
+            # --- loops over known elements
+            if isinstance(st, ast.For) and not st.orelse:
+                it = expr_unroll(copy.deepcopy(st.iter), env)
+                els = _literal_elements(repo, ci, it, env)
+                has_flow = any(isinstance(n, (ast.Break, ast.Continue)) for b in st.body for n in ast.walk(b)
+                               if not isinstance(n, (ast.For, ast.While)))
+                if els is not None and not has_flow:
+                    ok = True
+                    pieces: List[ast.stmt] = []
+                    for x in els:
+                        b = _bind_target(st.target, x)
+                        if b is None:
+                            ok = False
+                            break
+                        body = [_Rename(dict(b)).visit(copy.deepcopy(s)) for s in st.body]
+                        for s2 in body:
+                            for n2 in ast.walk(s2):
+                                n2._synthetic = True
+                        pieces.extend(body)
+                    if ok:
+                        for k in assigned_names(st.body):
+                            env.pop(k, None)
+                        out.extend(block(pieces, env))
+                        continue
+            # --- yield from chain(...)/chain.from_iterable(L) and `for x in L: yield from x`
+            if isinstance(st, ast.Expr) and isinstance(st.value, ast.YieldFrom) and isinstance(st.value.value, ast.Call):
+                c = st.value.value
+                f = norm(c.func)
+                parts = None
+                if f.split(".")[-1] == "from_iterable" and len(c.args) == 1:
+                    parts = _literal_elements(None, None, expr_unroll(copy.deepcopy(c.args[0]), env), env)
+                elif f.split(".")[-1] == "chain" and c.args and not c.keywords:
+                    if len(c.args) == 1 and isinstance(c.args[0], ast.Starred):
+                        parts = _literal_elements(None, None, expr_unroll(copy.deepcopy(c.args[0].value), env), env)
+                    elif not any(isinstance(a, ast.Starred) for a in c.args):
+                        parts = list(c.args)
+                if parts is not None:
+                    for p in parts:
+                        y = ast.Expr(value=ast.YieldFrom(value=copy.deepcopy(p)))
+                        out.append(ast.fix_missing_locations(ast.copy_location(y, st)))
+                    continue
+            # --- list accumulation in straight-line code
+            if isinstance(st, ast.Assign) and len(st.targets) == 1 and isinstance(st.targets[0], ast.Name):
+                v = expr_unroll(copy.deepcopy(st.value), env)
+                st = copy.copy(st)
+                st.value = v
+                if isinstance(v, (ast.List, ast.Tuple)) and not any(isinstance(x, ast.Starred) for x in v.elts):
+                    env[st.targets[0].id] = list(v.elts)
+                else:
+                    env.pop(st.targets[0].id, None)
+                out.append(st)
+                continue
+            if isinstance(st, ast.AugAssign) and isinstance(st.target, ast.Name) and isinstance(st.op, ast.Add):
+                v = expr_unroll(copy.deepcopy(st.value), env)
+                st = copy.copy(st)
+                st.value = v
+                if st.target.id in env and isinstance(v, (ast.List, ast.Tuple)):
+                    env[st.target.id] = env[st.target.id] + list(v.elts)
+                else:
+                    env.pop(st.target.id, None)
+                out.append(st)
+                continue
+            if isinstance(st, ast.Expr) and isinstance(st.value, ast.Call) and isinstance(st.value.func, ast.Attribute) \
+                    and isinstance(st.value.func.value, ast.Name) and st.value.func.value.id in env and len(st.value.args) == 1:
+                nm, m = st.value.func.value.id, st.value.func.attr
+                a = expr_unroll(copy.deepcopy(st.value.args[0]), env)
+                if m == "append":
+                    env[nm] = env[nm] + [a]
+                elif m == "extend" and isinstance(a, (ast.List, ast.Tuple)):
+                    env[nm] = env[nm] + list(a.elts)
+                else:
+                    env.pop(nm, None)
+                out.append(st)
+                continue
+            # --- compound statements: recurse, forget lists assigned inside
+            st = copy.copy(st)
+            for fld in ("body", "orelse", "finalbody"):
+                if hasattr(st, fld) and isinstance(getattr(st, fld), list) and not isinstance(st, (ast.FunctionDef, ast.ClassDef)):
+                    setattr(st, fld, block(getattr(st, fld), env))
+            if isinstance(st, ast.Try):
+                for h in st.handlers:
+                    h.body = block(h.body, env)
+            if isinstance(st, (ast.If, ast.While)):
+                st.test = expr_unroll(st.test, env)
+            elif isinstance(st, (ast.For,)):
+                st.iter = expr_unroll(st.iter, env)
+            elif not isinstance(st, (ast.With, ast.Try, ast.FunctionDef, ast.ClassDef)):
+                st = expr_unroll(st, env)
+            if isinstance(st, (ast.If, ast.For, ast.While, ast.With, ast.Try)):
+                for k in assigned_names([st]):
+                    env.pop(k, None)
+            out.append(st)
+        return out
+
+    new.body = block(new.body, {}) or [ast.Pass()]
+    ast.fix_missing_locations(new)
+    number(new)
+    return new
+
+
+def normalize(repo: Repo, ci: Optional[ClassInfo], fn: ast.FunctionDef, sf: Optional[SourceFile] = None, **kw) -> ast.FunctionDef:
+    """flatten, then unroll: the form in which rules read a function."""
+    return unroll(flatten(repo, ci, fn, sf, **kw), repo, ci)
